@@ -9,6 +9,8 @@ mod cli;
 mod corpus;
 mod lex;
 mod front;
+mod gram;
+mod nt;
 mod lspx;
 mod report;
 mod util;
@@ -75,6 +77,7 @@ fn main() {
         };
         let case = if v.get("case").is_some() { v["case"].clone() } else { v };
         let r = match id.as_str() {
+            "C01" => checks::c01::replay(&case),
             "C07" => checks::c07::replay(&case),
             "C11" => checks::c11::replay(&case),
             "C12" => checks::c12::replay(&case),
@@ -101,6 +104,7 @@ fn main() {
 
     let mut ctx = Ctx::new(&id, tier);
     match id.as_str() {
+        "C01" => checks::c01::run(&mut ctx),
         "C07" => checks::c07::run(&mut ctx),
         "C11" => checks::c11::run(&mut ctx),
         "C12" => checks::c12::run(&mut ctx),
